@@ -127,7 +127,17 @@ class Evaluator:
 
     def run_fn(self, name, args):
         h = self.F.hir_fn(name)
+        self.crate = h.get("_crate")
         return self.run(h["params"], h["body"], args)
+
+    def node_type(self, e):
+        """type of a HIR expression node as text (needs the crate of the body being evaluated: set by run_fn / inline_call, or by the caller through `ev.crate`)"""
+        c = getattr(self, "crate", None)
+        t = e.get("t")
+        try:
+            return self.F.crates[c]["types"][t] if c is not None and t is not None else ""
+        except (KeyError, IndexError, TypeError):
+            return ""
 
     # ------------------------------------------------------------------ patterns
     def match(self, p, v, env):
@@ -758,6 +768,12 @@ class Evaluator:
         none = ("v", "None", [])
         is_opt = lambda v: v[0] == "v" and v[1] in ("Some", "None")
         seq0 = self.as_seq(a0) if a0 is not None else None
+        if method in ("unwrap_or", "unwrap_or_default") and a0 is not None and a0[0] == "v" and a0[1] in ("Some", "Ok") and a0[2]:
+            yield s, a0[2][0]
+            return
+        if method == "unwrap_or" and a0 is not None and a0[0] == "v" and a0[1] in ("None", "Err") and len(args) == 2:
+            yield s, args[1]
+            return
         # operators written as method calls on integers: `a.rem(60)`, `a.div(60)` (std::ops traits in scope)
         if method in ("rem", "div", "add", "sub", "mul") and len(args) == 2 and re.search(r"core::ops::arith::(Rem|Div|Add|Sub|Mul)", callee or "") and \
                 all(x[0] == "lit" and isinstance(x[1], int) and not isinstance(x[1], bool) for x in args):
@@ -809,6 +825,17 @@ class Evaluator:
             s2 = s.fork()
             s2.env[self.recv_local] = ("iterv", list(seq0[1:]))
             yield s2, (some(seq0[0]) if seq0 else none)
+        elif seq0 is not None and method in ("skip", "take") and len(args) == 2 and args[1][0] == "lit" and isinstance(args[1][1], int) and args[1][1] >= 0:
+            yield s, ("iterv", list(seq0[args[1][1]:] if method == "skip" else seq0[:args[1][1]]))
+        elif seq0 is not None and method == "chain" and len(args) == 2 and self.as_seq(args[1]) is not None:
+            yield s, ("iterv", list(seq0) + list(self.as_seq(args[1])))
+        elif seq0 is not None and method == "chain" and len(args) == 2 and args[1][0] == "call" and str(args[1][1]).endswith("iter::sources::repeat::repeat") and len(args[1][2]) == 1:
+            yield s, ("padseq", list(seq0), args[1][2][0])          # a finite sequence followed by one item repeated for ever
+        elif a0 is not None and a0[0] == "padseq" and method == "take" and len(args) == 2 and args[1][0] == "lit" and isinstance(args[1][1], int) and args[1][1] >= 0:
+            n = args[1][1]
+            yield s, ("iterv", list(a0[1][:n]) + [a0[2]] * max(0, n - len(a0[1])))
+        elif a0 is not None and a0[0] == "padseq" and method == "skip" and len(args) == 2 and args[1][0] == "lit" and isinstance(args[1][1], int) and args[1][1] >= 0:
+            yield s, ("padseq", list(a0[1][args[1][1]:]), a0[2])
         elif seq0 is not None and method == "collect" and len(args) == 1:
             yield s, ("array", list(seq0))
         elif seq0 is not None and method in ("len", "count") and len(args) == 1:
@@ -1000,6 +1027,7 @@ class Evaluator:
                 while rl.get("k") == "AddrOf" or (rl.get("k") == "Unary" and rl.get("op") == "*"):
                     rl = rl.get("e") or rl.get("a")
                 self.recv_local = rl.get("name") if rl.get("k") == "Path" and rl.get("res") == "local" else None
+                self.cur_ty = self.node_type(e)
                 if self.call_hook:
                     r = self.call_hook(callee, [recv] + args, s)
                     if r is not None:
@@ -1036,8 +1064,13 @@ class Evaluator:
             sub = State({}, s.conds)
             for p, a in zip(h["params"], args):
                 self.match(p, a, sub.env)
-            for s2, v in self.ev(h["body"], sub):
-                yield State(s.env, s2.conds, s.ret, s.brk), (s2.ret if s2.ret is not None else v)
+            outer_crate = getattr(self, "crate", None)
+            self.crate = h.get("_crate", outer_crate)
+            try:
+                for s2, v in self.ev(h["body"], sub):
+                    yield State(s.env, s2.conds, s.ret, s.brk), (s2.ret if s2.ret is not None else v)
+            finally:
+                self.crate = outer_crate
         finally:
             self._depth -= 1
 
